@@ -846,12 +846,6 @@ def op_level(ctx, res, rng, rec):
                 for singular in (False, True):
                     negative = kb != 'c' and z < 0
                     reps = 1 if not negative else (2 if ctx['tier'] == 'quick' else 6)
-                    if negative and n == 4 and (z <= -3 or (ka == 'c' and z <= -2)):
-                        if ctx['tier'] == 'quick':
-                            continue    # exact arithmetic on 4x4 float inverses cubed costs seconds per case in Coq
-                        reps = 1
-                    if negative and ctx['tier'] == 'quick' and n == 4:
-                        reps = 1
                     for _ in range(reps):
                         if singular:
                             a = gen_singular(rng, n, ka if ka != 'f' else rng.choice(['i', 'f']))
